@@ -295,6 +295,7 @@ def run_schedule(sched, seed=0):
                 ncb += 1
                 # which arrival is this?  progress carries the arrival index unless absent
                 n = progress if isinstance(progress, int) and progress in payloads else 0
+                sure = n != 0
                 if n == 0:
                     # fields == "none": progress defaults to 0; identify by order
                     cands = [i for i, p in payloads.items() if isinstance(p, dict) and p.get("progressToken") == tokens.get(c) and "progress" not in p and i not in seen_prog]
@@ -306,7 +307,9 @@ def run_schedule(sched, seed=0):
                     and total == p.get("total")
                     and message == p.get("message")
                 )
-                ev("Progress", c=c, n=n, ok=bool(ok))
+                # sure = the notification named its arrival; otherwise n is a guess by order (with several
+                # callers an earlier field-less progress may have been consumed by another waiter)
+                ev("Progress", c=c, n=n, ok=bool(ok), sure=bool(sure))
                 if k.get("raiseAt") and ncb == k["raiseAt"]:
                     raise RuntimeError("callback failure injected by the schedule")
 
